@@ -352,9 +352,12 @@ def fold_strings(func_node, module_consts=None):
                 else:
                     raise KeyError('fstring')
             return out
-        if isinstance(e, ast.Call) and isinstance(e.func, ast.Attribute) and e.func.attr == 'join' and len(e.args) == 1 \
-                and isinstance(e.args[0], (ast.List, ast.Tuple)):
-            return fold(e.func.value).join(fold(x) for x in e.args[0].elts)
+        if isinstance(e, ast.Call) and isinstance(e.func, ast.Attribute) and e.func.attr == 'join' and len(e.args) == 1:
+            a = e.args[0]
+            if isinstance(a, ast.Name) and isinstance(env.get(a.id), list):
+                return fold(e.func.value).join(env[a.id])
+            if isinstance(a, (ast.List, ast.Tuple)):
+                return fold(e.func.value).join(fold(x) for x in a.elts)
         raise KeyError(norm(e))
 
     for st in func_node.body:
@@ -362,7 +365,9 @@ def fold_strings(func_node, module_consts=None):
             t = st.targets[0]
             v = st.value
             try:
-                if isinstance(t, ast.Name):
+                if isinstance(t, ast.Name) and isinstance(v, (ast.List, ast.Tuple)):
+                    env[t.id] = [fold(x) for x in v.elts]
+                elif isinstance(t, ast.Name):
                     env[t.id] = fold(v)
                 elif isinstance(t, ast.Attribute) and isinstance(v, ast.Call) and norm(v.func) in ('re.compile',) and v.args:
                     if len(v.args) > 1 or v.keywords:
